@@ -1312,7 +1312,7 @@ def parse_txt(txt, xopts=None, **kwargs):
         # not only deep but also wide: two such tags per template double the
         # work with every level, so the nested re-entries are counted as well
         xopts.parse_nested[0] += 1
-        if depth > 20 or xopts.parse_nested[0] > 200:
+        if depth > 20 or xopts.parse_nested[0] > 50:
             return []
     xopts.parse_depth = depth
     try:
